@@ -410,29 +410,44 @@ pub fn run_c11(tier: &str, seed: u64) -> campaign::CampaignResult {
             Err(m) if m == "timeout" => ev.count("timeouts", 1),
             Err(msg) => {
                 // one report per distinct failure class
-                let class: String = msg.lines().next().unwrap_or("").chars().map(|c| if c.is_ascii_digit() { '#' } else { c }).take(70).collect();
+                let class: String = class_of(msg);
                 if !reported.insert(class.clone()) {
                     ev.count("further_failures_of_a_reported_class", 1);
                     continue;
                 }
-                // minimise: drop lines while the same class of failure persists
+                // minimise: delta debugging over lines (chunks of decreasing size) while the same class of
+                // failure persists; bounded work, and only for the first few classes of a run
                 let mut cur = text.clone();
-                loop {
-                    let ls: Vec<&str> = cur.split_inclusive('\n').collect();
-                    let mut improved = false;
-                    for i in 0..ls.len() {
-                        let cand: String = ls.iter().enumerate().filter(|(j, _)| *j != i).map(|(_, l)| *l).collect();
-                        if let Err(m2) = check_input(&cand) {
-                            let c2: String = m2.lines().next().unwrap_or("").chars().map(|c| if c.is_ascii_digit() { '#' } else { c }).take(70).collect();
-                            if c2 == class {
-                                cur = cand;
-                                improved = true;
-                                break;
-                            }
+                let mut budget: usize = if violations < 3 { 250 } else { 0 };
+                let same_class = |cand: &str| -> bool {
+                    match check_input(cand) {
+                        Err(m2) => {
+                            let c2: String = class_of(&m2);
+                            c2 == class
                         }
+                        _ => false,
+                    }
+                };
+                let mut chunk = (cur.split_inclusive('\n').count() / 2).max(1);
+                while budget > 0 {
+                    let ls: Vec<String> = cur.split_inclusive('\n').map(|l| l.to_string()).collect();
+                    let mut improved = false;
+                    let mut i = 0;
+                    while i < ls.len() && budget > 0 {
+                        let cand: String = ls.iter().enumerate().filter(|(j, _)| *j < i || *j >= i + chunk).map(|(_, l)| l.as_str()).collect();
+                        budget -= 1;
+                        if cand.len() < cur.len() && same_class(&cand) {
+                            cur = cand;
+                            improved = true;
+                            break;
+                        }
+                        i += chunk;
                     }
                     if !improved {
-                        break;
+                        if chunk == 1 {
+                            break;
+                        }
+                        chunk = (chunk / 2).max(1);
                     }
                 }
                 let msg2 = check_input(&cur).err().unwrap_or_else(|| msg.clone());
@@ -457,6 +472,13 @@ pub fn run_c11(tier: &str, seed: u64) -> campaign::CampaignResult {
     ev.write();
     println!("C11 {} seed={} inputs={} nontrivial={} violations={} wall={:.1}s", tier, seed, ev.evaluations, ev.nontrivial.len(), violations, ev.wall_s);
     campaign::CampaignResult { violations, inconclusive: false }
+}
+
+/// Failure class of a C11 message: its first line up to the first quoted piece of input, digits abstracted.
+fn class_of(msg: &str) -> String {
+    let first = msg.lines().next().unwrap_or("");
+    let head = first.split('`').next().unwrap_or(first);
+    head.chars().map(|c| if c.is_ascii_digit() { '#' } else { c }).take(70).collect()
 }
 
 pub fn replay_c11(rep: &ProgReplay) -> Result<Option<String>, String> {
